@@ -5,8 +5,11 @@ from .. import sym, callgraph
 from ..norm import n, P, C, V, ANY, match, find_all, binop
 from . import common, cmpmodel, layout, panics, simd, hexcodec, c11
 
+# per-architecture backend modules: the only places where vector intrinsics / raw pointer arithmetic may appear
+BACKEND_MODS = r"::(x86_(sse2|ssse3|sse4_1|avx2)|arm_neon|wasm32_simd128)::"
+
 ID = "C17"
-CONFIGS = {"quick": ["K0", "K8"], "thorough": ["K0", "K1", "K8", "K11", "K13", "K14a", "K14b", "K14c", "K16"]}
+CONFIGS = {"quick": ["K0", "K8", "K13", "K17"], "thorough": ["K0", "K1", "K8", "K11", "K13", "K14a", "K14b", "K14c", "K16", "K17", "K19", "K20"]}
 FIXTURES = {"panic", "taint"}
 META = {
     "explanation": (
@@ -89,7 +92,7 @@ def table_values(F, path):
     if not c:
         return None
     t = F.ty(c["ty"])
-    es = {"u8": 1, "u16": 2, "u32": 4, "usize": 8}.get(F.tys(t["elem"])) if t["k"] == "array" else None
+    es = {"u8": 1, "u16": 2, "u32": 4, "usize": F.usize_bytes}.get(F.tys(t["elem"])) if t["k"] == "array" else None
     return F.const_array(path, es) if es else None
 
 
@@ -228,12 +231,12 @@ def layering(ctx, F):
             bad.append("%s dereferences a raw pointer" % p)
             continue
         cp, macs = op[2], op[3]
-        if re.search(r"::x86_(sse2|ssse3|sse4_1|avx2)::", p):
-            if cp.startswith("core::arch::") or re.search(r"::x86_(sse2|ssse3|sse4_1|avx2)::", cp) or cp.startswith(("core::ptr::const_ptr", "core::slice::<impl [T]>::as_ptr")):
+        if re.search(BACKEND_MODS, p):
+            if cp.startswith("core::arch::") or re.search(BACKEND_MODS, cp) or cp.startswith(("core::ptr::const_ptr", "core::slice::<impl [T]>::as_ptr")):
                 continue
             bad.append("%s calls unsafe %s" % (p, cp))
         elif re.search(r"^(compare::dist_body::distance_(32|64)|generate::bucket_aggregation::aggregate_(48|128|256))(::\{closure#\d+\})*$", p):
-            if re.search(r"::x86_(sse2|ssse3|sse4_1|avx2)::", cp):
+            if re.search(BACKEND_MODS, cp):
                 continue
             bad.append("%s calls unsafe %s" % (p, cp))
         elif cp == "core::hint::unreachable_unchecked":
@@ -261,7 +264,7 @@ def load_bases(ctx, r, F):
             continue
         for _, t in b.calls():
             cp = t["callee"].get("path") or ""
-            if re.search(r"_mm(256)?_(storeu|store|stream|maskstore|maskmoveu)_", cp) or cp.startswith("core::ptr::write") or cp.endswith("::write_unaligned"):
+            if re.search(r"_mm(256)?_(storeu|store|stream|maskstore|maskmoveu)_|::vst\d|::v128_store", cp) or cp.startswith("core::ptr::write") or cp.endswith("::write_unaligned"):
                 stores.append("%s calls %s" % (b.path, cp))
     ctx.instance(r)
     ctx.ob(r, ("vector-stores", "none"), not stores, "; ".join(stores[:3]), cfg=F.key)
